@@ -630,8 +630,8 @@ def check_sides(sidelog, F, prefix, out, extra_hyps=(), final_values=None):
                                   witness=({"model": info.get("model"), "names": info.get("names"), "concrete": wit} if st == "refuted" else None),
                                   secs=time.time() - t0))
     for kind, what, why, loc, assumed in sidelog.items:
-        if final_values is not None and kind in ("pos", "nonzero") and (kind, _norm_key(P(what))) in guarded:
-            continue
+        if final_values is not None and kind in ("pos", "nonzero") and (kind, _norm_key(P(what))) in guarded and not str(why).startswith("[fp-raise]"):
+            continue        # (under np.errstate(...="raise") a division is a trap even in a branch np.where then discards)
         if kind == "delta-range":
             e, b = what
             if T.symname(e) is not None:
